@@ -889,10 +889,17 @@ static void run_manual(const TableSpec& t, Rng& r) {
 
 static JitRuntime* g_rt = nullptr;
 static uint64_t g_jit_hint = 0;
+static uint64_t a_seed = 0;
 
 static void run_jit(const TableSpec& t) {
   if (!g_rt) {
-    g_rt = new JitRuntime();
+    // every other process runs the pipeline with separate writable/executable views (rx != rw)
+    if (a_seed & 1) {
+      JitAllocator::CreateParams dp {};
+      dp.options = JitAllocatorOptions::kUseDualMapping;
+      g_rt = new JitRuntime(&dp);
+    }
+    else g_rt = new JitRuntime();
     JitAllocator::Span sp;
     if (g_rt->allocator().alloc(Out(sp), 64) != Error::kOk) harness_fail("JitAllocator::alloc");
     g_jit_hint = uint64_t(uintptr_t(sp.rx()));   // kept allocated: "near" targets are placed around it
@@ -940,6 +947,7 @@ static void jnum(const char* k, uint64_t v, bool comma = true) { printf("\"%s\":
 int main(int argc, char** argv) {
   Args a(argc, argv);
   uint64_t seed = a.u64("seed", 1);
+  a_seed = seed;
   uint64_t first = a.u64("first", 0), ntab = a.u64("tables", 100);
   bool allow_jit = a.u64("jit", 1) != 0;
   g_poison = !a.has("no-poison");
